@@ -5,6 +5,7 @@ import BridgeVerif.Model.Session
 import BridgeVerif.Model.Abort
 import BridgeVerif.Model.SeatThread
 import BridgeVerif.Model.MainThread
+import BridgeVerif.Model.ClientThread
 /-! Driver ops `X.*` : a session scenario is assembled line by line, then its per-thread programs, log
 records and seat streams are printed, and the canonical (lowest-enabled-first) run is executed. -/
 namespace Bridge.Driver
@@ -153,6 +154,17 @@ def sessionOps (x : XState) (t : List String) : XState × String :=
       let streams : MainIn := fun p => match p with | .N => qn | .E => qe | .S => qs | .W => qw
       (x, match mainReactive sc (sc.boards.map (·.1)) streams with
           | some acts => " ".intercalate (acts.map showAct) ++ " || " ++ " ## ".intercalate ((writesOf acts).map showRecord)
+          | none => "RAISES")
+    | _, _, _, _ => (x, "bad-op")
+  -- the reactive model of the bundled client: seat, the decisions its systems returned (calls, cards), the s2c stream
+  | ["X.clientreact", p, calls, cards, s2c] =>
+    let texts (s : String) : Option (List Text) := if s = "-" then some [] else (s.splitOn ",").mapM unhex?
+    let callsL : Option (List Call) := if calls = "-" then some [] else (calls.splitOn ",").mapM call?
+    let cardsL : Option (List Card) := if cards = "-" then some [] else (cards.splitOn ",").mapM card?
+    match seat? p, callsL, cardsL, texts s2c with
+    | some p, some cl, some cd, some st =>
+      (x, match clientReactive p cl cd st with
+          | some acts => " ".intercalate (acts.map showAct)
           | none => "RAISES")
     | _, _, _, _ => (x, "bad-op")
   | ["X.logops"] =>
